@@ -19,7 +19,7 @@ SEP = '\x1b'
 # ------------------------------------------------------------------------------------------------ values
 PLAIN = 'abcdefghijklmnopqrstuvwxyzABCDEFGHIJKLMNOPQRSTUVWXYZ0123456789_'
 NASTY = ['"', '\\', '\n', '\t', "'", ' ', '  ', '{', '}', '[', ']', '//', '/*', '$', ',', ';', ':', '\r', '\x0b', '\x08',
-         '\x0c', '\x07', '\\n', '\\"', '"\\', 'é', '中', '\U0001f600', '?', '/', '=', '(', ')', '#', '%', '\x7f', '+', '-', '.']
+         '\x0c', '\x07', '\\n', '\\"', '"\\', 'é', '中', 'Ж', '©', '€', '\U0001f600', '?', '/', '=', '(', ')', '#', '%', '\x7f', '+', '-', '.']
 
 
 def rword(rng: random.Random, lo: int = 1, hi: int = 8) -> str:
@@ -1134,6 +1134,7 @@ def check_vmf(vmf, opts: dict) -> list[tuple[str, str, dict]]:
     except Exception as e:
         return [('parse-error:' + err_class(e), f'parsing the exported text raised {type(e).__name__}: {e}', {'text_len': len(t1)})]
     after = observe(v2, opts)
+    alt = alt_forms(vmf, t1, after, opts)      # before `after` is normalised below
     seen = set()
     # Entities that merely changed their order are reported once as such and then compared pairwise. Candidate
     # alignments: by ID (when the IDs survived) and "visible first, then hidden" (the two-pass reader); the one that
@@ -1188,6 +1189,7 @@ def check_vmf(vmf, opts: dict) -> list[tuple[str, str, dict]]:
         seen.add(pc)
         out.append(('field:' + pc, f'field {".".join(map(str, path))} differs after export->parse: {a!r} became {b!r}',
                     {'path': list(path), 'before': repr(a)[:300], 'after': repr(b)[:300]}))
+    out.extend(alt)
     try:
         t2 = export_text(v2, opts)
     except Exception as e:
@@ -1207,6 +1209,49 @@ def check_vmf(vmf, opts: dict) -> list[tuple[str, str, dict]]:
     elif t1 != t2:
         cls, det = text_diff_class(NEGZERO.sub('0', t1), NEGZERO.sub('0', t2))
         out.append(('text:' + cls, f'export->parse->export is not a fixed point: line {det["line"]}: {det["first"]!r} became {det["second"]!r}', det))
+    return out
+
+
+def alt_forms(vmf, t1: str, after: dict, opts: dict) -> list[tuple[str, str, dict]]:
+    """The other public forms of the same two calls (round 5): export INTO a file object must write what export() returns as
+    a string, and VMF.parse(<file name>) must give the map VMF.parse(<Keyvalues tree>) gives.  The file-name form opens the
+    file as cp1251 text with universal newlines: it is exercised when the text is encodable and holds no bare CR."""
+    import os
+    import tempfile
+    from srctools.vmf import VMF
+    out: list[tuple[str, str, dict]] = []
+    try:
+        buf = io.StringIO()
+        ret = vmf.export(buf, inc_version=False, minimal=opts.get('minimal', False), disp_multiblend=opts.get('disp_multiblend', True))
+        if ret is not None or buf.getvalue() != t1:
+            cls, det = text_diff_class(t1, buf.getvalue()) if buf.getvalue() != t1 else ('return-value', {'line': 0, 'first': 'None', 'second': repr(ret)[:80]})
+            out.append(('export:file-object-form:' + cls, 'VMF.export(file) wrote something else than VMF.export() returns: '
+                        f'line {det["line"]}: {det["first"]!r} became {det["second"]!r}', det))
+    except Exception as e:
+        out.append(('export-error:file-object-form:' + err_class(e), f'VMF.export(file) raised {type(e).__name__}: {e}', {}))
+    try:
+        data = t1.encode('cp1251')
+    except UnicodeEncodeError:
+        return out
+    if '\r' in t1 or len(t1) % 2:        # every other text (by the parity of its length: deterministic), to keep the quick tier cheap
+        return out
+    try:
+        with tempfile.TemporaryDirectory(dir='/var/tmp', prefix='c06_file_') as d:
+            path = os.path.join(d, 'map.vmf')
+            with open(path, 'wb') as fh:
+                fh.write(data)
+            v3 = VMF.parse(path, preserve_ids=opts.get('preserve_ids', False))
+    except Exception as e:
+        out.append(('parse-error:file-name-form:' + err_class(e), f'VMF.parse(<file name>) raised {type(e).__name__}: {e} '
+                    '(VMF.parse(<Keyvalues tree>) of the same text works)', {}))
+        return out
+    seen = set()
+    for path_, a, b in diff(after, observe(v3, opts)):
+        pc = path_class(path_)
+        if pc not in seen:
+            seen.add(pc)
+            out.append(('parse:file-name-form:' + pc, f'VMF.parse(<file name>) and VMF.parse(<Keyvalues tree>) of the same text differ in '
+                        f'{".".join(map(str, path_))}: {b!r} instead of {a!r}', {'path': list(path_)}))
     return out
 
 
